@@ -3,6 +3,7 @@
   Model: `Model/OptParams.lean` (hand model of smpp/pdu_tlv.go and smgp/options.go).
 -/
 import SmsVerif.Lemmas.OptParams
+import SmsVerif.Lemmas.OptParamsConv
 
 namespace SmsVerif.C16
 open SmsVerif
@@ -196,6 +197,32 @@ theorem C16_add_to_empty (t : Nat) (v : Bytes) :
     TlvMap.find? (TlvMap.upsert [] t v) t = some v ∧ TlvMap.find? [] t = none := by
   simp [TlvMap.upsert, TlvMap.find?]
 
+/-- **accepts_exactly** : the slice-based parser accepts a byte string if and only if it is the
+    concatenation of complete triplets (no trailing octets, no triplet cut short), and what it
+    returns is then the last-wins container of exactly those triplets.  Together with
+    `C16_parsers_agree` this makes "all well-formed triplet sequences" the whole accepted domain:
+    nothing outside it is ever parsed into a container. -/
+theorem C16_parse_options_accepts_exactly (bs : Bytes) (hb : ∀ b ∈ bs, b < 256) (m : TlvMap) :
+    parseOptions bs = some m ↔ ∃ seq : TlvMap, WellFormed seq ∧ bs = tlvsBytes seq ∧ m = upsertAll [] seq := by
+  constructor
+  · intro h; exact parseOptions_conv bs m hb h
+  · rintro ⟨seq, hwf, rfl, rfl⟩
+    simpa [parseOptions] using parseOptionsLoop_seq seq [] ((tlvsBytes seq).length + 1) (by omega) hwf
+
+/-- a byte string that is not a triplet sequence is refused (`ErrLength`), e.g. a triplet sequence
+    followed by one to three stray octets, or a triplet whose value is cut short -/
+theorem C16_parse_options_refuses (bs : Bytes) (hb : ∀ b ∈ bs, b < 256)
+    (h : ¬ ∃ seq : TlvMap, WellFormed seq ∧ bs = tlvsBytes seq) : parseOptions bs = none := by
+  cases hp : parseOptions bs with
+  | none => rfl
+  | some m =>
+    obtain ⟨seq, hwf, hbs, _⟩ := (C16_parse_options_accepts_exactly bs hb m).1 hp
+    exact absurd ⟨seq, hwf, hbs⟩ h
+
+example : parseOptions [0, 5, 0, 2, 1, 2, 0, 5, 0, 1, 9] = some [(5, [9])] := by decide
+example : parseOptions [0, 5, 0, 2, 1, 2, 7] = none := by decide
+example : parseOptions [0, 5, 0, 3, 1, 2] = none := by decide
+
 example : WellFormed [(5, [1, 2]), (0x0204, []), (3, [0xff])] ∧ tagsNodup [(5, [1, 2]), (0x0204, []), (3, [0xff])] = true := by
   refine ⟨?_, by decide⟩
   intro tv h; simp at h; rcases h with rfl | rfl | rfl <;> simp
@@ -210,4 +237,6 @@ open SmsVerif.C16
 #print axioms C16_no_fabrication_reader
 #print axioms C16_long_value_consistent
 #print axioms C16_add_to_empty
+#print axioms C16_parse_options_accepts_exactly
+#print axioms C16_parse_options_refuses
 end
